@@ -128,14 +128,26 @@ async fn server_decoder(log: &Log, sched: &Sched, r: &mut Rng, n: u64, exhaustiv
         let mut sid = 0u32;
         for _ in 0..r.range(1, 4) {
             sid += 1;
-            let c = random_dest(r).await;
-            let hdr = encode(&c);
+            let mut c = random_dest(r).await;
+            let mut hdr = encode(&c);
             let before = sched.internal_events();
-            ev!(log, "dreq", r: sid, via: "peer", atyp: c.atyp, addr: cells(&c.addr), port: c.port, allowed: c.allowed, wire: cells(&hdr));
+            // a UDP association: the stream's destination is the magic name, the target follows in the initial request
+            // (isConnect, address type, address, port) - cut like the header itself
+            let udp = c.atyp != 3 && r.chance(1, 3);
+            if udp {
+                if c.port == 0 { c.port = 9; }
+                ev!(log, "dreq", r: sid, via: "peer-udp", atyp: c.atyp, addr: cells(&c.addr), port: c.port, allowed: c.allowed, wire: Vec::<i64>::new());
+                let magic = b"sp.v2.udp-over-tcp.arpa";
+                hdr = vec![3u8, magic.len() as u8]; hdr.extend_from_slice(magic); hdr.extend_from_slice(&[0, 0]);
+                hdr.push(1); hdr.push(c.atyp); hdr.extend_from_slice(&c.addr); hdr.extend_from_slice(&c.port.to_be_bytes());
+            } else {
+                ev!(log, "dreq", r: sid, via: "peer", atyp: c.atyp, addr: cells(&c.addr), port: c.port, allowed: c.allowed, wire: cells(&hdr));
+            }
             rg.inp.push(&frame_bytes(1, sid, &[]));
             // cut the header into PSH frames; each frame may itself arrive in two transport pieces
             let mut cuts: Vec<usize> = Vec::new();
             if exhaustive_cuts && hdr.len() <= 24 { cuts = (1..hdr.len()).collect(); }
+            else if udp && (exhaustive_cuts || r.chance(1, 2)) { cuts = (27..hdr.len()).filter(|_| exhaustive_cuts || r.chance(1, 2)).collect(); }
             else { for p in 1..hdr.len() { if r.chance(1, 3) { cuts.push(p); } } }
             let mut prev = 0usize;
             cuts.push(hdr.len());
